@@ -2,8 +2,11 @@
 """Run every stored seeded change against the check of the property it breaks (and optionally others).
 Applies seeded/<id>/patch.diff to /repo, runs ./check <property> --tier <tier>, reverts /repo.
 Writes seeded/<id>/meta.json and seeded/RESULTS.md."""
-import json, os, re, subprocess, sys, time
+import json, os, re, shutil, subprocess, sys, time
 ROOT = '/verif'
+# evidence files are rewritten by every check run: keep the clean-tree ones (evidence_backup) and put them back at the end
+if os.path.isdir(f'{ROOT}/evidence'):
+    shutil.rmtree('/tmp/evidence_backup', ignore_errors=True); shutil.copytree(f'{ROOT}/evidence', '/tmp/evidence_backup')
 tier = sys.argv[1] if len(sys.argv) > 1 else 'quick'
 only = sys.argv[2:]  # optional seed ids
 rows = []
@@ -57,3 +60,6 @@ with open(f'{ROOT}/seeded/RESULTS.md', 'w') as f:
     f.write('# Seeded changes vs. checks\n\nEach seed was written by a fresh sub-agent that saw only the property text and a scratch worktree; confirmed by tools/confirm_seed.sh; run by tools/run_seeds.py.\n\n| seed | property | result | failed obligations | wall s | needs to manifest |\n|---|---|---|---|---|---|\n')
     for r in allrows:
         f.write('| ' + ' | '.join(str(x) for x in r) + ' |\n')
+
+if os.path.isdir('/tmp/evidence_backup'):
+    shutil.rmtree(f'{ROOT}/evidence', ignore_errors=True); shutil.copytree('/tmp/evidence_backup', f'{ROOT}/evidence')
